@@ -152,17 +152,16 @@ ListItem(s, i, ts) ==
        LET has == i + 1 <= Len(s) /\ ~IsNull(s[i + 1]) IN
        IF has /\ ~IsList(s[i + 1]) THEN [st |-> "err", list |-> s, rest |-> <<>>]               \* panic, recovered
        ELSE LET l2 == ListItem(IF has THEN s[i + 1].l ELSE <<>>, IdxOf(r.last), r.rest) IN
-            IF l2.st # "nil" THEN [st |-> l2.st, list |-> s, rest |-> l2.rest]
-            ELSE [st |-> "nil", list |-> SetIndex(s, i, Li(l2.list)), rest |-> l2.rest]
+            \* io.EOF (the expression ends here) still sets the index and is passed on
+            IF l2.st = "err" THEN [st |-> "err", list |-> s, rest |-> l2.rest]
+            ELSE [st |-> l2.st, list |-> SetIndex(s, i, Li(l2.list)), rest |-> l2.rest]
   ELSE \* "."
        LET inr == i + 1 <= Len(s)
            s1  == IF inr /\ ~IsMap(s[i + 1]) THEN [s EXCEPT ![i + 1] = EmptyMap] ELSE s    \* replaced in place
            e   == Key(IF inr THEN s1[i + 1].m ELSE <<>>, r.rest) IN
-       IF e.st # "nil"
-       THEN \* "return list, e" without setIndex: an element inside the list was updated in place
-            \* (Go maps are references), a fresh one beyond the end is lost
-            [st |-> e.st, list |-> IF inr THEN [s1 EXCEPT ![i + 1] = Mp(e.data)] ELSE s, rest |-> e.rest]
-       ELSE [st |-> "nil", list |-> SetIndex(s1, i, Mp(e.data)), rest |-> e.rest]
+       \* io.EOF from key() (an empty value at the end of the expression) still sets the index
+       IF e.st = "err" THEN [st |-> "err", list |-> s1, rest |-> e.rest]
+       ELSE [st |-> e.st, list |-> SetIndex(s1, i, Mp(e.data)), rest |-> e.rest]
 
 \* parser.parse(): key() until EOF; result [ok, v]
 RECURSIVE ParseLoop(_, _)
